@@ -103,7 +103,7 @@ def main():
     replay = sys.argv[sys.argv.index("--replay") + 1] if "--replay" in sys.argv else None
     ck = V.Check("C09", tier)
     rng = ck.rng
-    ck.proof_leg(["Extract/Extract_crc.vo"])
+    ck.proof_leg(["Extract/Extract_crc.vo", "Extract/Extract_crcbe.vo"])
     drv = V.build_driver("c09_drv", ["c09_drv.c"])
     model = V.ocaml_build("crc")
     env = V.san_env()
@@ -134,6 +134,27 @@ def main():
                 ck.nontrivial(("crc", l[:64]))
         ck.engine_stat("crc", cases=len(lines), disagreements=nd)
         ck.sample({"engine": "crc", "case": lines[40], "model": mo[40], "impl": co[40]})
+
+    # ---- T1b: bzip2's big-endian CRC (Model/CrcBE.v; the C builds its table at run time, so there is no table to translate): the model's
+    #      block CRC and stream CRC against the values an independent encoder (Python's bz2) stores for single-block payloads; the real
+    #      decoder's use of them is what the bzip2 corruption sweeps below exercise
+    if not replay:
+        import bz2
+        bmodel = V.ocaml_build("crcbe")
+        pl = [b"123456789", b"a", bytes(1000), bytes(rng.randrange(256) for _ in range(5000))] + [bytes(rng.randrange(256) for _ in range(rng.choice((1, 2, 3, 17, 255, 256, 4096, 60000)))) for _ in range(20 if tier == "quick" else 300)]
+        mo = V.run([bmodel], inp="".join("B %s\nS %s\n" % (d.hex(), d.hex()) for d in pl), timeout=600).stdout.split("\n")
+        nb = 0
+        for k, d in enumerate(pl):
+            z = bz2.compress(d, rng.choice((1, 9)))
+            ck.count()
+            hdr = int.from_bytes(z[10:14], "big")
+            bits = "".join("{:08b}".format(x) for x in z); eos = bits.rfind("{:048b}".format(0x177245385090)); stream = int(bits[eos + 48:eos + 80], 2)
+            if z[4:10] != bytes.fromhex("314159265359") or str(hdr) != mo[2 * k] or str(stream) != mo[2 * k + 1]:
+                nb += 1
+                ck.violation({"engine": "crcbe", "payload_hex": d.hex()[:2000], "what": "bzip2 block / stream CRC stored by an independent encoder: %d / %d, the model computes %s / %s" % (hdr, stream, mo[2 * k], mo[2 * k + 1]),
+                              "broken": "Model/CrcBE.v does not compute bzip2's CRC"}, key="crcbe")
+            else: ck.nontrivial(("crcbe", d))
+        ck.engine_stat("crcbe", payloads=len(pl), disagreements=nb)
 
     # ---- T2: corruption sweeps
     data = os.path.join(V.REPO, "test-dev", "data")
